@@ -431,6 +431,7 @@ def explore_case(harness, case, seed, max_paths=2000, feasibility="linear", time
     CTX.simplify = bool(getattr(harness, "SIMPLIFY", True))
     CTX.trace_calls = bool(getattr(harness, "TRACE_CALLS", False))
     H = HSym(case, seed)
+    H.default_slice = bool(getattr(harness, "DEFAULT_SLICE", False))
     run = CaseRun(case)
     spec = harness.patch_spec(case) if hasattr(harness, "patch_spec") else {}
     todo = [[]]
